@@ -56,7 +56,7 @@ Fixpoint clean45 (l : list op) (w : world) : bool :=
   | [] => true
   | o :: rest =>
     negb (Known03 w o) && negb (Known04 T LATEST w o) && negb (Known05 w o)
-    && negb (Pending04 w o) && negb (Pending05 w o)
+    && negb (Pending45 w o)
     && match run o w with Val (_, w') => clean45 rest w' | _ => true end
   end.
 
